@@ -1,0 +1,7 @@
+//go:build !verif
+
+package externalcmd
+
+func verifOnStart(*Cmd) bool { return false }
+
+func verifOnClose(*Cmd) bool { return false }
